@@ -76,6 +76,11 @@ def check_vector(v):
     cmp("get_mask", v["mask"], lambda: dense(gi.get_mask(), True))
     cmp("get_pileup", v["pileup"], lambda: dense(gi.get_pileup()))
     cmp("sorted", v["sorted"], lambda: _rows(gi.sorted().get_data(), names))
+    # the same genome given with its contigs in the opposite order and asked to sort the names: every contig keeps its own size
+    gs_ = bnp.Genome(dict(reversed(list(sizes.items()))), sort_names=True)
+    cmp("get_mask[sort_names]", v["mask"], lambda: dense(gs_.get_intervals(table(es), stranded=True).get_mask(), True))
+    cmp("get_pileup[sort_names]", v["pileup"], lambda: dense(gs_.get_intervals(table(es)).get_pileup()))
+    cmp("extended_to_size[sort_names]", v["extend"][2], lambda: _rows(gs_.get_intervals(table(es), stranded=True).extended_to_size(3).get_data(), names), length=3)
     for d in (0, 1):
         cmp("merged", v["merged"][d], lambda: _rows(gi.sorted().merged(d).get_data(), names), distance=d)
     for L in (1, 2, 3):
